@@ -319,10 +319,50 @@ def h_offset(ctx):
     ctx.nontrivial()
 
 
+SCALES = [1e-5, 1e-3, 1e4]
+SC_OBS = [1.0, 2.0, 4.0]
+SC_FCST = [1.0, 3.0, 4.0]
+
+
+def h_scale(ctx):
+    """The same small vectors in other units: every value multiplied by a common scale (precipitation rate in kg/m2/s is
+    about 1e-5, pressure in Pa about 1e4+).  The definitions have no absolute scale: a score that is defined for (o, f) is
+    defined for (s*o, s*f); a guard or tolerance with an absolute size (isclose(x, 0), a fixed epsilon) is not."""
+    S = ctx.choose("scale", SCALES, free=True)
+    o = [ctx.choose("obs%d" % i, SC_OBS, free=True) for i in range(3)]
+    f = [ctx.choose("fcst%d" % i, SC_FCST, free=True) for i in range(3)]
+    oi = [a * S for a in o]
+    fi = [a * S for a in f]
+    ctx.note("obs", oi)
+    ctx.note("fcst", fi)
+    sig = []
+    for name in MD.DETERMINISTIC:
+        m = get_metric(name)
+        if name in MD.AGG_AWARE:
+            set_agg(m, "mean")
+        kind, got, site, _ = call_from_obs_fcst(m, oi, fi)
+        exp = MD.metric(name, oi, fi)
+        if kind != "ok":
+            ctx.fail("scale:%s:%s:%s" % (name, kind, site), obs=oi, fcst=fi)
+            continue
+        if exp is None:
+            continue
+        g = float(got) if got is not np.ma.masked else float("nan")
+        ok = (not math.isnan(g)) and abs(exp - g) <= 1e-8 * max(abs(exp), min(S, 1.0))
+        if not ok and name == "leps":
+            ok = tol_equal(MD.metric("leps-left", oi, fi), got)
+        if not ok:
+            ctx.fail("scale:%s:value" % name, obs=oi, fcst=fi, expected=exp, actual=g, scale=S)
+        sig.append(float("%.6g" % exp))
+    ctx.observe(tuple(sig))
+    ctx.outcome("scale=%g" % S)
+    ctx.nontrivial(len(set(o)) > 1 and len(set(f)) > 1)
+
+
 def plan(tier):
     if tier == "quick":
-        return [("vectors", harness, {"maxlen": 3, "nanlen": 2, "data": True, "datalen": 2}), ("cli", h_cli, {}), ("offset", h_offset, {})]
-    return [("vectors", harness, {"maxlen": 4, "nanlen": 3, "data": True, "datalen": 3}), ("cli", h_cli, {}), ("offset", h_offset, {})]
+        return [("vectors", harness, {"maxlen": 3, "nanlen": 2, "data": True, "datalen": 2}), ("cli", h_cli, {}), ("offset", h_offset, {}), ("scale", h_scale, {})]
+    return [("vectors", harness, {"maxlen": 4, "nanlen": 3, "data": True, "datalen": 3}), ("cli", h_cli, {}), ("offset", h_offset, {}), ("scale", h_scale, {})]
 
 
 def run(tier, only=None):
@@ -337,6 +377,11 @@ def run(tier, only=None):
                                          rule="one execution = one offset vector pair, 22 metrics against the two-pass reference (1e-8 relative); "
                                               "non-trivial = every execution (all have valid pairs)",
                                          required_flags=("constant-error",), wall=time.time() - t0))
+            continue
+        if name == "scale":
+            subs.append(core.Sub.from_e1(name, st, bound="full product: scales %r x obs in %r^3 x fcst in %r^3" % (SCALES, SC_OBS, SC_FCST),
+                                         rule="one execution = one scaled vector pair, 22 metrics against the reference (1e-8 relative to the score or the unit); "
+                                              "non-trivial = neither series constant", wall=time.time() - t0))
             continue
         subs.append(core.Sub.from_e1(name, st, bound="full product of vector pairs %r over a 5-value alphabet" % (params,),
                                      rule="one execution = one (obs, fcst) vector pair (+ optional NaN position): 22 metrics, 7 x 18 aggregator variants, "
